@@ -388,9 +388,10 @@ func (it *Interp) trimModel(s, cutset Bytes, left, right bool) Value {
 	}
 	lo, hi := c.Int(0), s.Len
 	if right {
-		hi = end
+		hi = it.impliedConst(end)
 	}
 	if left {
+		start = it.impliedConst(start)
 		// all-cutset string: empty result
 		lo = c.Ite(c.Bin(OpUlt, start, hi), start, hi)
 	}
